@@ -487,3 +487,79 @@ Proof.
   destruct (conv_named module_fns prof no_env f "offset" off); try contradiction;
   destruct (conv_named module_fns prof no_env f "length" len); first [contradiction|discriminate].
 Qed.
+
+(* ------------------------------------------------------------------ no allow list at all *)
+Theorem host_no_panic_without_exceptions : forall prof,
+  table_safe_with prof emitter_controlled [] all_fns = true ->
+  forall f a env len v,
+    In f all_fns -> In a (f_args f) ->
+    is_emitter_controlled emitter_controlled (f_name f) (a_name a) = false ->
+    fits (a_ty a) v = true -> (forall n, fits I64 (env n) = true) ->
+    run_arg prof env len a v <> Panic.
+Proof.
+  intros prof Ht f a env len v Hf Ha Hc Hv Henv.
+  unfold table_safe_with in Ht. rewrite forallb_forall in Ht.
+  specialize (Ht f Hf). rewrite forallb_forall in Ht. specialize (Ht a Ha).
+  rewrite Hc in Ht. cbn in Ht. rewrite !orb_false_r in Ht. apply arg_no_panic; assumption.
+Qed.
+
+(* the functions that used to need the allow list, for every i64 argument *)
+Definition range_match_safe (prof : profile) : bool :=
+  named_safe_on host_fns prof full_oenv "pat_range_match" "required" i64_min i64_max.
+Lemma pat_range_match_total : forall prof n r,
+  range_match_safe prof = true -> i64_min <= r <= i64_max -> pat_range_match host_fns prof n r <> RPanic.
+Proof.
+  intros prof n r Hs Hr. unfold pat_range_match.
+  pose proof (named_no_panic host_fns prof full_oenv no_env _ _ _ _ r Hs Hr no_env_ok) as N.
+  destruct (conv_named host_fns prof no_env "pat_range_match" "required" r); first [contradiction|discriminate].
+Qed.
+
+Definition abs_safe (prof : profile) : bool := named_safe_on module_fns prof full_oenv "math.abs" "x" i64_min i64_max.
+Lemma math_abs_total : forall prof x,
+  abs_safe prof = true -> i64_min <= x <= i64_max -> math_abs module_fns prof x <> RPanic.
+Proof.
+  intros prof x Hs Hr. unfold math_abs.
+  pose proof (named_no_panic module_fns prof full_oenv no_env _ _ _ _ x Hs Hr no_env_ok) as N.
+  destruct (conv_named module_fns prof no_env "math.abs" "x" x); first [contradiction|discriminate].
+Qed.
+
+Definition hash_safe (prof : profile) : bool :=
+  forallb (fun f => named_safe_on module_fns prof full_oenv f "offset" i64_min i64_max) hash_fns.
+Lemma hash_range_total : forall prof f dl off size,
+  hash_safe prof = true -> In f hash_fns -> i64_min <= off <= i64_max -> i64_min <= size <= i64_max ->
+  hash_range module_fns prof f dl off size <> RPanic.
+Proof.
+  intros prof f dl off size Hs Hf Ho Hsz. unfold hash_safe in Hs. rewrite forallb_forall in Hs. specialize (Hs f Hf).
+  unfold hash_range.
+  set (env := fun n : string => if String.eqb n "size" then size else 0).
+  assert (Henv : env_ok env full_oenv).
+  { intro n. unfold env, full_oenv. cbn. destruct (String.eqb n "size"); unfold i64_min, i64_max in *; cbn in *; lia. }
+  pose proof (named_no_panic module_fns prof full_oenv env _ _ _ _ off Hs Ho Henv) as N.
+  destruct (conv_named module_fns prof env f "offset" off) as [v| | |]; try contradiction; try discriminate;
+  destruct dl as [z|]; try discriminate; destruct ((off <=? v) && (v <=? z)); discriminate.
+Qed.
+
+Definition console_fns : list string := ["console.log_bytes"; "console.log_msg_bytes"]%string.
+Definition console_safe (prof : profile) : bool :=
+  forallb (fun f => named_safe_on module_fns prof full_oenv f "offset" i64_min i64_max) console_fns.
+Lemma console_range_total : forall prof f dl off len,
+  console_safe prof = true -> In f console_fns -> i64_min <= off <= i64_max -> i64_min <= len <= i64_max ->
+  console_range module_fns prof f dl off len <> RPanic.
+Proof.
+  intros prof f dl off len Hs Hf Ho Hl. unfold console_safe in Hs. rewrite forallb_forall in Hs. specialize (Hs f Hf).
+  unfold console_range. destruct dl as [z|]; [|discriminate].
+  set (env := fun n : string => if String.eqb n "length" then len else 0).
+  assert (Henv : env_ok env full_oenv).
+  { intro n. unfold env, full_oenv. cbn. destruct (String.eqb n "length"); unfold i64_min, i64_max in *; cbn in *; lia. }
+  pose proof (named_no_panic module_fns prof full_oenv env _ _ _ _ off Hs Ho Henv) as N.
+  destruct (conv_named module_fns prof env f "offset" off); first [contradiction|discriminate].
+Qed.
+
+(* the conversion shapes of the repaired defects, as literals: they panic (these
+   statements do not depend on the source and stay true) *)
+Definition before_fix_required : harg := mkArg "required" I64 [mkUse (TryIntoUnwrap I32) false true; mkUse (Compared "comparison") true false].
+Definition before_fix_abs : harg := mkArg "x" I64 [mkUse UncheckedAbs false false].
+Definition before_fix_hash_offset : harg :=
+  mkArg "offset" I64 [mkUse (TryIntoOk USize) false false; mkUse (UncheckedArith Add (OpArg "size")) false true; mkUse (TryIntoOk USize) true true].
+Definition before_fix_console_offset : harg :=
+  mkArg "offset" I64 [mkUse (AsCast USize) false false; mkUse (UncheckedArith Add (OpArg "length")) false true; mkUse (AsCast USize) true false].
